@@ -3,6 +3,8 @@
 # one-line summary per property (exit code, VIOLATION / KNOWN-FINDING lines, obligations/discharged, files that failed to build).
 cd "$(dirname "$0")/.." || exit 2
 T=${1:-quick}
+# the environment of the real run: offline, VERIF_SEED=1 (override: SEED=n tools/full_pass.sh)
+export CARGO_NET_OFFLINE=true GOPROXY=off PIP_NO_INDEX=1 VERIF_SEED=${SEED:-1} VERIF_TIER=$T
 ./setup.sh > /tmp/full_pass_setup.$$ 2>&1; echo "setup rc=$? $(tail -1 /tmp/full_pass_setup.$$)"; rm -f /tmp/full_pass_setup.$$
 for P in $(python3 -c "import json; print(' '.join(c['property_id'] for c in json.load(open('MANIFEST.json'))['checks']))"); do
   rm -f evidence/$P.json
@@ -18,3 +20,5 @@ PY
 )"
   grep '^VIOLATION' /tmp/full_pass_$P.$$ | head -3; rm -f /tmp/full_pass_$P.$$
 done
+# every evidence file must now be the valid record of a quiet run on /repo's tree (never commit evidence that fails this)
+if command -v python3-vt >/dev/null 2>&1; then python3-vt tools/validate_evidence.py; else python3 tools/validate_evidence.py; fi
